@@ -208,3 +208,38 @@ func Ints(v any) []int {
 	}
 	return out
 }
+
+// Exchange is an all-to-all barrier between the shards of one check run: every shard contributes payload under the
+// given name and gets back the payloads of all shards (index = shard). It uses files in $VERIF_WORK (the driver starts
+// all shards together). Used by level-synchronous searches that deduplicate states globally.
+func Exchange(name string, shard, of int, payload []byte) ([][]byte, error) {
+	dir := os.Getenv("VERIF_WORK")
+	if dir == "" || of <= 1 {
+		return [][]byte{payload}, nil
+	}
+	pass := os.Getenv("VERIF_PASS")
+	mine := fmt.Sprintf("%s/xchg-%s-%s-%d.bin", dir, pass, name, shard)
+	if err := os.WriteFile(mine+".tmp", payload, 0o644); err != nil {
+		return nil, err
+	}
+	if err := os.Rename(mine+".tmp", mine); err != nil {
+		return nil, err
+	}
+	out := make([][]byte, of)
+	deadline := time.Now().Add(30 * time.Minute)
+	for i := 0; i < of; i++ {
+		p := fmt.Sprintf("%s/xchg-%s-%s-%d.bin", dir, pass, name, i)
+		for {
+			b, err := os.ReadFile(p)
+			if err == nil {
+				out[i] = b
+				break
+			}
+			if time.Now().After(deadline) {
+				return nil, fmt.Errorf("exchange %s: shard %d never delivered", name, i)
+			}
+			time.Sleep(20 * time.Millisecond)
+		}
+	}
+	return out, nil
+}
